@@ -90,8 +90,9 @@ class Scheduler:
     # ---- identity
     def me(self) -> TState | None:
         ident = _rt.get_ident()
-        for t in self.threads:
-            if t.real is not None and t.real.ident == ident:
+        # the OS re-uses thread idents: a finished thread's TState must not shadow a new thread
+        for t in reversed(self.threads):
+            if t.real is not None and not t.done and t.real.ident == ident:
                 return t
         return None
 
